@@ -5,7 +5,7 @@ from oracle_util import *  # noqa
 from protocol import from_real, pm
 
 ID = "C17"
-LEAN_MODULE = ["SCoda.Props.C17", "SCoda.Props.Notes", "SCoda.Props.NotesB"]
+LEAN_MODULE = ["SCoda.Props.C17", "SCoda.Props.Notes", "SCoda.Props.NotesB", "SCoda.Props.WrapTie"]
 LEVEL = "proof"
 CLAUSES = [
     ("reflexive (every list, every flag set) and symmetric", ["SCoda.C17.refl", "SCoda.C17.symm"]),
@@ -33,6 +33,8 @@ CLAUSES = [
      "compared messages that tie in the sort key agree on what equals compares (any number of control / program changes on one tick and channel allowed); the unrestricted "
      "insertion-order statement is refuted on two different time signatures on one tick",
      ["SCoda.NotesB.equals_rerepresented", "SCoda.NotesB.equals_of_same_events", "SCoda.NotesB.equals_of_perm_tie", "SCoda.NotesB.insertion_order_statement_false"]),
+    ("TIE BY TRANSLATION: Sequence.equals (both absolute views read, the four flags handed on in the order of the signature) as re-translated from the source is the "
+     "model's equalsSeq; AbsoluteSequence.equals itself stays tied by correspondence", ["SCoda.WrapTie.equals_eq"]),
     ("each of the velocity / time-signature / key-signature flags: sequences differing only in that attribute compare equal with the flag and unequal without it",
      ["SCoda.NotesB.flag_velocity_only", "SCoda.NotesB.flag_velocity_strict", "SCoda.NotesB.flag_time_signature_only", "SCoda.NotesB.flag_time_signature_strict",
       "SCoda.NotesB.flag_key_signature_only", "SCoda.NotesB.flag_key_signature_strict"]),
@@ -125,8 +127,28 @@ def o_equals(inp):
     return fails
 
 
+def two_sigs_one_tick(inp):
+    """some sequence of the pair holds two DIFFERENT signatures of one kind on one tick"""
+    for side in ("a", "b"):
+        seen = {}
+        for (k, t, v) in inp[side]["sigs"]:
+            v = tuple(v) if isinstance(v, list) else v
+            if (k, t) in seen and seen[(k, t)] != v:
+                return True
+            seen.setdefault((k, t), v)
+    return False
+
+
+D27_EXAMPLE = {"a": {"notes": [], "sigs": [("ts", 0, (4, 4)), ("ts", 0, (3, 4))]}, "b": {"notes": [], "sigs": [("ts", 0, (4, 4)), ("ts", 0, (3, 4))]},
+               "order_b": [1, 0], "flags": [False, False, False, False], "kind": "same events, other insertion order"}
+
+
 def setup(ctx):
     ctx.oracle("equals", o_equals)
+
+    def kf_d27(f):
+        return f["clause"] == "verdict" and two_sigs_one_tick(f["input"])
+    ctx.kf_predicates["D27"] = kf_d27
     ctx.history_oracles = {"equals"}
 
 
@@ -172,6 +194,7 @@ def wf_filter(notes):
 
 def generate(ctx):
     rng = ctx.rng
+    ctx.check("equals", D27_EXAMPLE)            # the recorded instance of the known finding
     for i in range(ctx.n(60, 1500)):
         notes = wf_filter(G.gen_notes(rng, n_notes=rng.randint(0, 6), channels=rng.choice([(0,), (0,), (0, 1)]),
                                       pitches=[60, 62, 64], max_tick=100, max_dur=30, short_bias=0.1))
